@@ -190,6 +190,9 @@ class Sim:
         if not (isinstance(f, ast.Attribute) and f.attr == "__init__"):
             return
         args = [self.ex(a, env, owner) for a in c.args if not isinstance(a, ast.Starred)]
+        star = [self.ex(a.value, env, owner) for a in c.args if isinstance(a, ast.Starred)]
+        if star:
+            args.append(E("op", "star", *star))          # lands in the callee's *vararg (or a positional slot): keeps the dependence
         kw = {}
         for k in c.keywords:
             v = self.ex(k.value, env, owner)
